@@ -24,6 +24,7 @@ import sys
 
 sys.path.insert(0, os.path.dirname(os.path.dirname(os.path.abspath(__file__))))
 from sa import core, pyfacts as pf, cfg as cfgm, batch, ksrules as ks  # noqa: E402
+from sa import unroll  # noqa: E402
 from sa.selftest import Mutant  # noqa: E402
 
 PROP = "C01"
@@ -261,8 +262,21 @@ def _ladder(stmts, flagdefs, ctr):
     return out
 
 
+def _eval_xc_cider_inlined(chk):
+    """eval_xc_cider with its private helper methods inlined (bounded depth): the feature-assembly and the
+    potential-distribution ladders may live in helpers"""
+    from sa import hinline
+    rel2, fn = ks.locate(chk.tree, NUMINT, "CiderNumIntMixin.eval_xc_cider")
+    prog = pf.Program(chk.tree, [rel2])
+    mod = prog.module(rel2)
+    cls = pf.enclosing_class(fn)
+    if cls is None:
+        return fn
+    return hinline.inline_helpers(fn, hinline.class_resolver(prog, mod, cls), depth=2)
+
+
 def rule_ladder(chk):
-    fn = ks.locate(chk.tree, NUMINT, "CiderNumIntMixin.eval_xc_cider")[1]
+    fn = _eval_xc_cider_inlined(chk)
     fq = "CiderNumIntMixin.eval_xc_cider"
     flagdefs = {}
     for st in fn.body:
@@ -270,42 +284,55 @@ def rule_ladder(chk):
             ft = ks.family_test(st.value)
             if ft and ft[1]:
                 flagdefs[st.targets[0].id] = ft[0]
-    # the running offset: a name set to 0 twice at the top level and advanced inside the rungs
-    zeros = {}
+    # the running offsets: names set to 0 at the top level and advanced inside the family rungs that follow
+    # (one name zeroed twice, or - after the ladders were moved into helpers and inlined here - two names)
+    zeros = []
     for i, st in enumerate(fn.body):
         if isinstance(st, ast.Assign) and len(st.targets) == 1 and isinstance(st.targets[0], ast.Name) \
                 and isinstance(st.value, ast.Constant) and st.value.value == 0 and st.value.value is not False:
-            zeros.setdefault(st.targets[0].id, []).append(i)
-    cands = [k for k, v in zeros.items() if len(v) == 2 and any(
-        isinstance(n, (ast.AugAssign, ast.Assign)) and pf.src(n.target if isinstance(n, ast.AugAssign) else n.targets[0]) == k
-        for st in fn.body if isinstance(st, ast.If) for n in st.body)]
-    if len(cands) != 1:
-        raise core.AnalysisError("%s: the running feature offset (set to 0 before each ladder) was not found: %s" % (
-            fq, sorted(zeros)))
-    ctr = cands[0]
-    starts = zeros[ctr]
+            zeros.append((i, st.targets[0].id))
 
-    def is_close(st):
+    def advanced_after(i, k):
+        for st in fn.body[i + 1:]:
+            if isinstance(st, ast.Assign) and any(isinstance(t, ast.Name) and t.id == k for t in st.targets):
+                return False
+            if isinstance(st, ast.If) and _rung_family(st.test, flagdefs) is not None:
+                for n in st.body:
+                    t = n.target if isinstance(n, ast.AugAssign) else (n.targets[0] if isinstance(n, ast.Assign) else None)
+                    if t is not None and pf.src(t) == k:
+                        return True
+        return False
+    secs = [(i, k) for i, k in zeros if advanced_after(i, k)]
+    if len(secs) != 2:
+        raise core.AnalysisError("%s: expected a forward and a backward feature ladder (offset set to 0, then advanced "
+                                 "per family), found %d such section(s)" % (fq, len(secs)))
+    starts = [i for i, _k in secs]
+
+    def is_close(st, ctr):
         if isinstance(st, ast.If) and isinstance(st.test, ast.Compare) and len(st.test.ops) == 1 \
                 and isinstance(st.test.ops[0], ast.NotEq) and ctr in ks._names(st.test) and cfgm._raises(st.body):
             return True
         return isinstance(st, ast.Assert) and isinstance(st.test, ast.Compare) and len(st.test.ops) == 1 \
             and isinstance(st.test.ops[0], ast.Eq) and ctr in ks._names(st.test)
-    guards = [i for i, st in enumerate(fn.body) if is_close(st)]
     sections = []
-    for k, s_ in enumerate(starts):
+    ctrs = []
+    for k, (s_, ctr) in enumerate(secs):
         end = starts[k + 1] if k + 1 < len(starts) else len(fn.body)
-        g = [i for i in guards if s_ < i < end]
+        g = [i for i in range(s_ + 1, end) if is_close(fn.body[i], ctr)]
         nm = "forward" if k == 0 else "backward"
         inst = "%s:%s %s ladder closed by the nfeat guard" % (NUMINT, fq, nm)
+        ctrs.append(ctr)
         if not g:
             chk.violation("ladder-mirror", NUMINT, fq, "%s ladder: start != nfeat guard" % nm,
-                          fn.body[s_].lineno, "the %s ladder is not closed by `if %s != nfeat: raise`: a family "
-                          "missing from one ladder would go unnoticed at run time" % (nm, ctr), instance=inst)
+                          fn.body[s_].lineno, "the %s ladder is not closed by `if <offset> != nfeat: raise`: a family "
+                          "missing from one ladder would go unnoticed at run time" % nm, instance=inst)
             sections.append(_ladder(fn.body[s_:end], flagdefs, ctr))
         else:
             chk.ok("ladder-mirror", inst)
             sections.append(_ladder(fn.body[s_:g[0]], flagdefs, ctr))
+    for sec, c_ in zip(sections, ctrs):
+        for r in sec:
+            r["ctr"] = c_
     fwd, bwd = sections
     if len(fwd) < 4:
         raise core.AnalysisError("%s: forward ladder has %d rungs (<4)" % (fq, len(fwd)))
@@ -339,7 +366,7 @@ def rule_ladder(chk):
         for r in sec:
             inst = "%s:%s %s rung %s %s its slice once" % (NUMINT, fq, nm, r["family"], "stores" if store else "reads")
             subs = [n for b in r["node"].body for n in ast.walk(b) if isinstance(n, ast.Subscript)
-                    and ctr in ks._names(n.slice)]
+                    and r["ctr"] in ks._names(n.slice)]
             if store:
                 subs = [n for n in subs if isinstance(n.ctx, ast.Store)]
             if len(subs) == 1:
@@ -354,20 +381,38 @@ def rule_ladder(chk):
     if not rets:
         raise core.AnalysisError("%s: `return exc, (vxc, vxc_nldf, vxc_sdmx), ...` not found" % fq)
     names = [pf.src(x) for x in rets[0].value.elts[1].elts]
+
+    def aliases(var):
+        """names the returned potential is copied from by plain (tuple) assignments at the top level"""
+        out, changed = {var}, True
+        while changed:
+            changed = False
+            for st in fn.body:
+                if not isinstance(st, ast.Assign) or len(st.targets) != 1:
+                    continue
+                t, v = st.targets[0], st.value
+                pairs = list(zip(t.elts, v.elts)) if isinstance(t, ast.Tuple) and isinstance(v, ast.Tuple) \
+                    and len(t.elts) == len(v.elts) else [(t, v)]
+                for a, b in pairs:
+                    if isinstance(a, ast.Name) and isinstance(b, ast.Name) and a.id in out and b.id not in out:
+                        out.add(b.id)
+                        changed = True
+        return out
+    bctr = ctrs[1]
     for fam, var in (("nldf", names[1]), ("sdmx", names[2])):
         r = [x for x in bwd if x["family"] == fam]
         inst = "%s:%s %s handed out / None by family flag" % (NUMINT, fq, var)
         good = False
+        al = aliases(var)
         if r:
             nd = r[0]["node"]
-            a = [n for n in nd.body if isinstance(n, ast.Assign) and pf.src(n.targets[0]) == var]
-            b = [n for n in nd.orelse if isinstance(n, ast.Assign) and pf.src(n.targets[0]) == var
+            a = [n for n in nd.body if isinstance(n, ast.Assign) and pf.src(n.targets[0]) in al]
+            b = [n for n in nd.orelse if isinstance(n, ast.Assign) and pf.src(n.targets[0]) in al
                  and pf.src(n.value) == "None"]
-            # or initialised to None before the ladder
-            pre = [n for n in fn.body[starts[1]:] if isinstance(n, ast.Assign) and pf.src(n.targets[0]) == var
+            pre = [n for n in fn.body[starts[1]:] if isinstance(n, ast.Assign) and pf.src(n.targets[0]) in al
                    and pf.src(n.value) == "None"]
             good = len(a) == 1 and (len(b) == 1 or len(pre) == 1) and isinstance(a[0].value, ast.Subscript) \
-                and ctr in ks._names(a[0].value.slice)
+                and bctr in ks._names(a[0].value.slice)
         if good:
             chk.ok("ladder-mirror", inst)
         else:
@@ -378,8 +423,7 @@ def rule_ladder(chk):
 
 # ----------------------------------------------------------------------------
 def rule_scale(chk):
-    mod = pf.Module(chk.tree, NUMINT)
-    fn = ks.locate(chk.tree, NUMINT, "CiderNumIntMixin.eval_xc_cider")[1]
+    fn = _eval_xc_cider_inlined(chk)
     fq = "CiderNumIntMixin.eval_xc_cider"
     # (value, derivative) pairs: first two targets of `... = self.mlxc(...)`
     pairs = set()
@@ -656,6 +700,16 @@ def rule_energy_nelec(chk):
 
 
 def _analyse_own(chk):
+    # spin loops (`for s in range(2)`, comprehensions over the two spins) are analysed as their two iterations
+    orig_tree = chk.tree
+    chk.tree = unroll.view(orig_tree)
+    try:
+        _analyse_rules(chk)
+    finally:
+        chk.tree = orig_tree
+
+
+def _analyse_rules(chk):
     chk.rule("potential-consume", "(vxc, vxc_nldf, vxc_sdmx) of eval_xc_cider are each consumed by def-use")
     chk.rule("ladder-mirror", "forward and backward family ladders of eval_xc_cider mirror each other")
     chk.rule("scale-pair", "in-place scaling of the ML energy is applied to its derivative too")
